@@ -419,7 +419,8 @@ pub fn op_withdraw(acc: &mut Acc, wd: &mut IncWorld, ui: usize) {
 }
 
 /// deposit through the frontend helper (cw20-LP variant only)
-pub fn op_helper_deposit(acc: &mut Acc, wd: &mut IncWorld, ui: usize, amount: u128, dur: u64) {
+/// fault: 0 exact funds, 1 more of the pool's native denom attached than declared, 2 an extra (unrelated) denom attached
+pub fn op_helper_deposit(acc: &mut Acc, wd: &mut IncWorld, ui: usize, amount: u128, dur: u64, fault: u8) {
     let Some(pair) = &wd.pair else { return };
     let usr = wd.users[ui].clone();
     let (pa, a0, a1, lp) = (pair.addr.clone(), pair.assets[0].clone(), pair.assets[1].clone(), pair.lp.clone());
@@ -427,7 +428,7 @@ pub fn op_helper_deposit(acc: &mut Acc, wd: &mut IncWorld, ui: usize, amount: u1
     let (r0, r1) = (pool.assets[0].amount.u128(), pool.assets[1].amount.u128());
     let d0 = amount;
     let d1 = (to_u128(&(w(amount) * w(r1) / w(r0.max(1)))).unwrap_or(amount)).max(1);
-    let what = format!("helper_deposit user{ui} [{d0},{d1}] dur={dur}");
+    let what = format!("helper_deposit user{ui} [{d0},{d1}] dur={dur} fault={fault}");
     wd.log(what.clone());
     let helper = wd.helper.clone();
     if let AssetRef::Cw20(t) = &a1 {
@@ -440,17 +441,33 @@ pub fn op_helper_deposit(acc: &mut Acc, wd: &mut IncWorld, ui: usize, amount: u1
         &usr,
         &helper,
         &white_whale_std::pool_network::frontend_helper::ExecuteMsg::Deposit { pair_address: pa.to_string(), assets: [a0.asset(d0), a1.asset(d1)], slippage_tolerance: None, unbonding_duration: dur },
-        &a0.funds(d0),
+        &{
+            let mut f = a0.funds(if fault == 1 { d0 + 1 + d0 / 7 } else { d0 });
+            if fault == 2 {
+                f.push(coin(1_000 + d0 % 1000, "uwhale"));
+                f.sort_by(|a, b| a.denom.cmp(&b.denom));
+            }
+            f
+        },
     );
     match res {
-        Err(_) => acc.count("helper.rejected"),
+        Err(_) => acc.count(if fault == 0 { "helper.rejected" } else { "helper.rejected.with-surplus-funds" }),
         Ok(_) => {
             acc.count("helper.ok");
+            if fault != 0 {
+                acc.count("helper.ok.with-surplus-funds");
+            }
             acc.count("check.K4");
             for a in [&a0, &a1, &AssetRef::Cw20(lp.clone())] {
                 let b = a.balance(&wd.app, &helper);
                 if b != 0 {
                     acc.violation("C11", "K4/frontend-helper-retains-funds", detail(wd, json!({"asset": a.id(), "balance": b.to_string(), "step": what})));
+                }
+            }
+            // nothing at all may stay with the helper (surplus or unrelated coins included)
+            for ((acct, asset), b) in all_balances(&wd.app, &wd.tokens) {
+                if acct == helper.as_str() && b != 0 && asset != a0.id() && asset != a1.id() && asset != lp.as_str() {
+                    acc.violation("C11", "K4/frontend-helper-retains-funds", detail(wd, json!({"asset": asset, "balance": b.to_string(), "step": what})));
                 }
             }
             let pos_post = wd.positions(&usr);
@@ -810,13 +827,17 @@ pub fn run_history(acc: &mut Acc, r: &mut Rng, steps: u64, variant: u64) {
         } else if op < 52 {
             if wd.pair.is_some() {
                 let dur = *r.pick(&durs);
-                op_helper_deposit(acc, &mut wd, ui, r.range128(1_000, 1_000_000_000), dur.clamp(MIN_DUR, MAX_DUR));
+                let fault = if r.chance(1, 3) { r.range(1, 2) as u8 } else { 0 };
+                op_helper_deposit(acc, &mut wd, ui, r.range128(1_000, 1_000_000_000), dur.clamp(MIN_DUR, MAX_DUR), fault);
             }
             class.push(5);
         } else if op < 62 {
             let asset = r.pick(&wd.rewards).clone();
-            let amount = match r.below(5) {
+            let amount = match r.below(6) {
                 0 => *r.pick(&[999u128, 1000, 1001, 2000]),
+                // 18-decimal sized rewards: per-epoch emissions above 1e18, where any rounding difference between
+                // the share used by the rewards query and the one used by claim becomes visible
+                1 => r.range128(1_000_000_000_000_000_000, 100_000_000_000_000_000_000_000_000),
                 _ => r.range128(1_000, 10_000_000_000),
             } + if asset.id() == wd.fee_asset.id() { wd.fee_amount } else { 0 };
             let e = wd.epoch();
